@@ -32,6 +32,10 @@ CHECKS["C09"] = ("exploration", "pending-set model monitor: model driven by the 
   "after every step of seeded interleavings of unconfirmed deliveries with confirming / double-spending blocks and un-confirming reorgs, the wallet's pending bucket must equal the model set with every record decodable, flags and coin selection must respect it and confirmed funds must equal the ledger",
   "trusts the pending model (purge rules on wallet-owned coins only; children through strangers' outputs unspecified) and the bucket layouts of txmgr/type.go", "§5 C09")
 
+CHECKS["C10"] = ("exploration", "reference-ledger monitor at every height (deposit list, withdrawn flags, withdrawable figures) + probes: automatic-selection inspection and wallet-built withdrawals checked against the consensus relative-lock rule and an independent script-engine run",
+  "lock-step histories with small frozen periods cross every origin+frozen boundary block by block; at each height the deposit histories, flags and withdrawable sums must equal the ledger, no staking/binding coin may be auto-selected, and each withdrawal the wallet builds must carry exactly the sequence consensus derives and verify after signing",
+  "trusts the ledger's transcription of calcSequenceLock/scriptval flag rule and mass-core's script engine; consensus constants lowered per case", "§5 C10")
+
 NOT_APPLICABLE = {}
 
 def main():
